@@ -378,3 +378,80 @@ def fit_case(ctx, case):
     if state["batches"]:
         ctx.nontrivial_case(dict(c=case))
         ctx.sample(dict(case=case, batches_with_extra=state["batches"], rows=state["rows"], baseline_rebuilds=state["updates"]))
+
+
+def module_files_case(ctx, case):
+    """File-backed validation / test sets through the training module's own data path: RL4COLitModule.setup() ->
+    env.dataset(phase) -> val_dataloader() / test_dataloader(), with setup() run more than once in the process (fit then test;
+    load_from_checkpoint does the same) and, optionally, several validation files with named loaders. Every pass must hand out
+    exactly the instances of the file, in file order (CVRP: demand divided by the file's capacity, as the loader documents)."""
+    import os
+    import shutil
+    import tempfile
+
+    import numpy as np
+
+    import rl4co.envs as E
+    from rl4co.data.generate_data import generate_dataset
+    from rl4co.models import REINFORCE
+
+    prob, sizes, N, bs, seed = case["problem"], case["sizes"], case["N"], case["bs"], case["s"]
+    d = tempfile.mkdtemp(prefix="verif-c17-")
+    sig = dict(kind="module_files", problem=prob, multi=len(sizes) > 1)
+    try:
+        names = []
+        for i, n in enumerate(sizes):
+            fn = f"{prob}{n}_val{i}.npz"
+            generate_dataset(filename=os.path.join(d, fn), problem=prob, dataset_size=N + i, graph_sizes=[n], seed=seed + i, overwrite=True)
+            names.append(fn)
+        tfn = f"{prob}{sizes[0]}_test.npz"
+        generate_dataset(filename=os.path.join(d, tfn), problem=prob, dataset_size=N + 2, graph_sizes=[sizes[0]], seed=seed + 50, overwrite=True)
+        cls = {"tsp": E.TSPEnv, "vrp": E.CVRPEnv}[prob]
+        val_file = names if len(names) > 1 else names[0]
+        dl_names = [f"set{j}" for j in range(len(names))] if (len(names) > 1 and case.get("named")) else None
+        env = cls(generator_params=dict(num_loc=sizes[0]), data_dir=d, val_file=val_file, test_file=tfn, val_dataloader_names=dl_names, check_solution=False)
+        model = REINFORCE(env, policy=policies.make("am", env), baseline="no", batch_size=4, val_batch_size=bs, test_batch_size=bs, train_data_size=8, val_data_size=N, test_data_size=N)
+
+        def expected(fn):
+            raw = dict(np.load(os.path.join(d, fn)))
+            out = {k: torch.from_numpy(v) for k, v in raw.items()}
+            if prob == "vrp":
+                out["demand"] = out["demand"] / out["capacity"][:, None]
+            return out
+
+        def read(dl):
+            bs_ = [b for b in dl]
+            return torch.cat(bs_, 0) if bs_ else None
+
+        for rep, stage in enumerate(case.get("stages", ["fit", "test"])):
+            model.setup(stage)
+            ctx.count("c17_module_setups")
+            vdl = model.val_dataloader()
+            vdls = vdl if isinstance(vdl, list) else [vdl]
+            if len(vdls) != len(names):
+                ctx.evaluation()
+                ctx.violation(dict(sig, q="loader_count"), f"{len(vdls)} validation loaders for {len(names)} validation files", None)
+                return
+            if len(names) > 1:
+                want_names = dl_names or [f"{j}" for j in range(len(names))]
+                if list(model.dataloader_names or []) != want_names:
+                    ctx.evaluation()
+                    ctx.violation(dict(sig, q="loader_names"), f"validation loaders are named {model.dataloader_names}, expected {want_names}", None)
+                    return
+            for what, fn, dl in [("val", f_, l_) for f_, l_ in zip(names, vdls)] + [("test", tfn, model.test_dataloader())]:
+                got, want = read(dl), expected(fn)
+                ctx.evaluation()
+                ctx.count("c17_module_file_reads")
+                n_want = next(iter(want.values())).shape[0]
+                if got is None or got.batch_size[0] != n_want:
+                    ctx.violation(dict(sig, q="lost_or_duplicated", phase=what, setup_pass=min(rep, 1)), f"{what} loader of {fn} (setup pass {rep}) hands out {None if got is None else got.batch_size[0]} instances, the file holds {n_want}", None)
+                    return
+                for k, w in want.items():
+                    g = got[k]
+                    if g.shape != w.shape or not torch.allclose(g.double(), w.double(), rtol=0, atol=1e-7):
+                        ctx.violation(dict(sig, q="content", phase=what, setup_pass=min(rep, 1), key=k), f"{what} loader of {fn}, setup pass {rep}: key '{k}' differs from the file's instances (in file order)", dict(N=N, bs=bs, sizes=sizes))
+                        return
+                ctx.nontrivial_case(dict(c=case, f=fn, r=rep))
+        ctx.sample(dict(case=case, loaders=len(names)))
+    finally:
+        shutil.rmtree(d, ignore_errors=True)
